@@ -16,12 +16,20 @@ import (
 )
 
 // c11Leaf draws a constrained primitive schema of the given kind index.
+// c11NonZero: under an open finding stated constants on shared properties stay
+// non-zero (a stated 'minimum: 0' is what the anyOf merge treats as empty).
+var c11NonZero bool
+
 func c11Leaf(t *rapid.T, kind int) *model.Node {
 	switch kind {
 	case 0:
 		n := &model.Node{Kind: model.KInteger}
 		if rapid.Bool().Draw(t, "hasmin") {
-			n.Minimum = model.FloatP(float64(rapid.IntRange(0, 5).Draw(t, "min")))
+			lo := 0
+			if c11NonZero {
+				lo = 1
+			}
+			n.Minimum = model.FloatP(float64(rapid.IntRange(lo, 5).Draw(t, "min")))
 		}
 		if rapid.Bool().Draw(t, "hasmax") {
 			n.Maximum = model.FloatP(float64(rapid.IntRange(5, 10).Draw(t, "max")))
@@ -41,17 +49,23 @@ func c11Leaf(t *rapid.T, kind int) *model.Node {
 	}
 	n := &model.Node{Kind: model.KNumber}
 	if rapid.Bool().Draw(t, "hasnmin") {
-		n.Minimum = model.FloatP(float64(rapid.IntRange(-4, 4).Draw(t, "nmin")) / 2)
+		v := float64(rapid.IntRange(-4, 4).Draw(t, "nmin")) / 2
+		if v == 0 && c11NonZero {
+			v = 0.5
+		}
+		n.Minimum = model.FloatP(v)
 	}
 	return n
 }
 
 type c11Case struct {
-	file     *model.File
-	comp     *model.Node
-	branches []*model.Node // resolved object nodes
-	kind     model.Kind
-	overlap  string
+	file       *model.File
+	comp       *model.Node
+	branches   []*model.Node // resolved object nodes
+	kind       model.Kind
+	overlap    string
+	second     *model.Node
+	secondName string
 }
 
 func genC11(t *rapid.T, c *core.Ctx) *c11Case {
@@ -66,7 +80,13 @@ func genC11(t *rapid.T, c *core.Ctx) *c11Case {
 	f := &model.File{RelPath: "prog.json", ID: "https://example.com/prog"}
 	comp := &model.Node{Kind: kind}
 	cc := &c11Case{file: f, comp: comp, kind: kind, overlap: "disjoint"}
-	diffAllowed := (kind == model.KAllOf && !c.Avoid("branches.same_property_different_constraints")) || (kind == model.KAnyOf && !c.Avoid("branches.anyof_same_property_different_constraints"))
+	diffAllowed := kind == model.KAnyOf || !c.Avoid("branches.same_property_different_constraints")
+	c11NonZero = false
+	if kind == model.KAnyOf && c.Avoid("branches.anyof_same_property_different_constraints") {
+		// narrowed exclusion: different constraints are drawn, but never a zero-valued constant
+		c11NonZero = true
+		c.ExcludedMap()["branches.anyof_same_property_different_constraints"]++
+	}
 	for i := 0; i < nb; i++ {
 		b := &model.Node{Kind: model.KObject}
 		np := rapid.IntRange(1, 3).Draw(t, "bprops")
@@ -117,6 +137,17 @@ func genC11(t *rapid.T, c *core.Ctx) *c11Case {
 		}
 	}
 	f.Root = &model.Node{Kind: model.KObject, Props: []model.Prop{{Name: "c", Node: comp}}, Required: []string{"c"}}
+	// a second list that starts with the same $ref branch (merging one list must not leak into the
+	// shared definition): its own extra branch declares other properties
+	if first := comp.Branches[0]; first.Kind == model.KRef && rapid.IntRange(0, 1).Draw(t, "secondlist") == 0 {
+		extra := &model.Node{Kind: model.KObject, Props: []model.Prop{{Name: "zOwn", Node: &model.Node{Kind: model.KBoolean}}}, Required: []string{"zOwn"}}
+		second := &model.Node{Kind: kind, Branches: []*model.Node{{Kind: model.KRef, Ref: first.Ref, Target: first.Target}, extra}}
+		// generated before "c" (properties are processed in sorted order) and after it
+		name := rapid.SampledFrom([]string{"a2", "d2"}).Draw(t, "secondname")
+		f.Root.Props = append(f.Root.Props, model.Prop{Name: name, Node: second})
+		cc.second, cc.secondName = second, name
+		c.Count("shape.second_list_shares_ref")
+	}
 	return cc
 }
 
@@ -273,7 +304,59 @@ func TestC11(t *testing.T) {
 				c.Count("subset.proper")
 			}
 		}
+		if cc.second != nil {
+			// the second list must behave as its own branches say, whatever the first list merged:
+			// give it the first branch's document plus its own property, with and without "c"
+			want := make([]bool, len(cc.branches))
+			want[0] = true
+			base, ok := docs.Valid(rt, cc.second, o)
+			if ok {
+				cdoc, cok := buildForSubset(rt, cc, allTrue(len(cc.branches)), o)
+				for _, withC := range []bool{false, true} {
+					doc := jv.ObjV(jv.Field(cc.secondName, base))
+					if withC {
+						if !cok {
+							continue
+						}
+						doc.O = append(doc.O, jv.KV{K: "c", V: cdoc})
+					} else if cc.file.Root.IsRequired("c") {
+						if !cok {
+							continue
+						}
+						doc.O = append(doc.O, jv.KV{K: "c", V: cdoc})
+					}
+					if oracle.Accepts(cc.file.Root, doc) {
+						jobs = append(jobs, core.Job{Type: progRoot, Op: "json", Doc: string(doc.Marshal()), Expect: "accept", ExpectVal: expJSON(docs.Expect(cc.file.Root, doc)), Label: "secondlist:valid"})
+						c.Count("doc.secondlist.valid")
+					}
+				}
+				// single-fault mutants inside the second list
+				full := jv.ObjV(jv.Field(cc.secondName, base))
+				if cok {
+					full.O = append(full.O, jv.KV{K: "c", V: cdoc})
+				}
+				if oracle.Accepts(cc.file.Root, full) {
+					muts, _ := docs.Mutants(rt, cc.file.Root, full, map[string]bool{"type": true, "required": true, "numeric": true, "string": true}, o)
+					for k := range muts {
+						m := &muts[k]
+						if !strings.HasPrefix(m.Path, "/"+cc.secondName) || k > 60 {
+							continue
+						}
+						jobs = append(jobs, core.Job{Type: progRoot, Op: "json", Doc: string(m.Doc.Marshal()), Expect: "reject", Rule: m.Rule() + "@" + m.Path, Label: "secondlist:" + strings.SplitN(m.Label, "<-", 2)[0]})
+						c.Count("doc.secondlist.reject")
+					}
+				}
+			}
+		}
 		c.Sample(sampleOf(cs, jobs))
 		return &RunCase{Case: cs, Jobs: jobs}
 	}, stdJudge)
+}
+
+func allTrue(n int) []bool {
+	out := make([]bool, n)
+	for i := range out {
+		out[i] = true
+	}
+	return out
 }
